@@ -127,7 +127,10 @@ def main():
     ap.add_argument('--checks', default='own')
     ap.add_argument('--tier', default='quick')
     ap.add_argument('-j', type=int, default=4)
+    ap.add_argument('--dir', default='seeded', help="'seeded' (property-breaking changes) or 'refactors' (behaviour-preserving changes: every check must stay silent)")
     a = ap.parse_args()
+    global SEEDED
+    SEEDED = os.path.join(HERE, a.dir)
     ids = a.ids or sorted(d for d in os.listdir(SEEDED) if os.path.isdir(os.path.join(SEEDED, d)))
     if a.cmd == 'verify':
         with cf.ThreadPoolExecutor(a.j) as ex:
